@@ -3,6 +3,7 @@ package checks
 import (
 	"fmt"
 	"math/rand"
+	"os"
 
 	"verif/engine/gosym"
 	. "verif/engine/oracle"
@@ -25,6 +26,8 @@ type Gen struct {
 	funcs     []genFunc
 	inLoop    int
 	inFunc    bool
+	freed     map[string][]string // names whose scope has ended, by prefix: reused by later declarations (same name in sibling scopes / other frames)
+	globals   genScope            // variables defined before the functions (visible inside them)
 	withFuncs bool
 	withSlice bool
 	budget    int
@@ -37,14 +40,31 @@ type genFunc struct {
 }
 
 func NewGen(seed int64, withFuncs, withSlice bool) *Gen {
-	return &Gen{rng: rand.New(rand.NewSource(seed)), protected: map[string]bool{}, maxMark: 5, maxSym: 4, withFuncs: withFuncs, withSlice: withSlice, budget: 60}
+	return &Gen{rng: rand.New(rand.NewSource(seed)), protected: map[string]bool{}, freed: map[string][]string{}, maxMark: 5, maxSym: 4, withFuncs: withFuncs, withSlice: withSlice, budget: 60}
 }
 
 func (g *Gen) pick(n int) int { return g.rng.Intn(n) }
 
 func (g *Gen) fresh(p string) string {
+	// every second declaration reuses a name that has gone out of scope (never a visible one: redeclaring an
+	// outer-scope variable is excluded from the properties)
+	if fl := g.freed[p]; len(fl) > 0 && g.pick(2) == 0 {
+		k := g.pick(len(fl))
+		n := fl[k]
+		g.freed[p] = append(append([]string{}, fl[:k]...), fl[k+1:]...)
+		return n
+	}
 	g.nvar++
 	return fmt.Sprintf("%s%d", p, g.nvar)
+}
+
+// release makes the names of a closed scope available again.
+func (g *Gen) release(names []string) {
+	for _, n := range names {
+		delete(g.protected, n)
+		p := n[:1]
+		g.freed[p] = append(g.freed[p], n)
+	}
 }
 
 func (g *Gen) intLit() Expr {
@@ -187,6 +207,10 @@ type genScope struct{ ints, bools, strs, slices int }
 
 func (g *Gen) save() genScope { return genScope{len(g.ints), len(g.bools), len(g.strs), len(g.slices)} }
 func (g *Gen) restore(s genScope) {
+	g.release(g.ints[s.ints:])
+	g.release(g.bools[s.bools:])
+	g.release(g.strs[s.strs:])
+	g.release(g.slices[s.slices:])
 	g.ints, g.bools, g.strs, g.slices = g.ints[:s.ints], g.bools[:s.bools], g.strs[:s.strs], g.slices[:s.slices]
 }
 
@@ -215,8 +239,8 @@ func (g *Gen) assignable(list []string) (string, bool) {
 
 func (g *Gen) stmt(d int) []Stmt {
 	g.budget--
-	choice := g.pick(16)
-	if d <= 0 && choice >= 9 {
+	choice := g.pick(19)
+	if d <= 0 && choice >= 9 && choice <= 15 {
 		choice = g.pick(9)
 	}
 	switch choice {
@@ -342,17 +366,80 @@ func (g *Gen) stmt(d int) []Stmt {
 		body := g.block(g.pick(2)+1, d-1)
 		g.inLoop--
 		g.restore(s)
+		g.unfree(cv) // the counter was defined before the loop and stays visible after it
+		g.protected[cv] = true
 		g.ints = append(g.ints, cv)
 		loopBody := append([]Stmt{Inc(cv)}, body...)
 		if g.pick(2) == 0 {
 			return []Stmt{Def(cv, N(0)), ForC(Op("<", V(cv), N(int64(g.pick(3)+1))), loopBody...)}
 		}
 		return []Stmt{Def(cv, N(0)), ForEver(append([]Stmt{IfS(Op(">=", V(cv), N(int64(g.pick(3)+1))), Break{})}, loopBody...)...)}
+	case 16:
+		// simultaneous assignment whose right-hand sides read the targets
+		a, okA := g.assignable(g.ints)
+		b, okB := g.assignable(g.ints)
+		if okA && okB && a != b {
+			forms := []Expr{V(b), P(V(a)), Op("+", V(a), V(b)), Op("-", V(b), g.intLit()), Op("*", V(a), N(2))}
+			return []Stmt{SetN([]string{a, b}, forms[g.pick(len(forms))], forms[g.pick(len(forms))])}
+		}
+		if sv, ok := g.assignable(g.strs); ok && okA {
+			return []Stmt{SetN([]string{a, sv}, Op("+", V(a), N(1)), Op("+", ItoaE{X: V(a)}, V(sv)))}
+		}
+		return []Stmt{Pr(g.intExpr(2))}
+	case 17:
+		// calls as statements (value discarded) and multi-value calls assigned to existing variables
+		if len(g.funcs) > 0 {
+			f := g.funcs[g.pick(len(g.funcs))]
+			if len(f.rets) == 2 && g.pick(2) == 0 {
+				var targets []string
+				okAll := true
+				for _, rt := range f.rets {
+					var v string
+					var ok bool
+					switch rt.Base {
+					case "int":
+						v, ok = g.assignable(g.ints)
+					case "bool":
+						v, ok = g.assignable(g.bools)
+					default:
+						v, ok = g.assignable(g.strs)
+					}
+					if !ok || (len(targets) > 0 && targets[0] == v) {
+						okAll = false
+						break
+					}
+					targets = append(targets, v)
+				}
+				if okAll {
+					return []Stmt{SetN(targets, g.callOf(f, 1))}
+				}
+			}
+			return []Stmt{Do(g.callOf(f, 1))}
+		}
+		return []Stmt{Do(g.intExpr(2))}
+	case 18:
+		// an expression used as a statement (its operands may be calls with effects)
+		if g.pick(2) == 0 {
+			return []Stmt{Do(g.intExpr(2))}
+		}
+		return []Stmt{Do(g.boolExpr(2))}
 	default:
 		if g.inFunc || g.inLoop > 0 {
 			return []Stmt{Pr(g.strExpr(2), g.intExpr(2))}
 		}
 		return []Stmt{PanicGuard(g.cond(2), g.strExpr(1))}
+	}
+}
+
+
+func (g *Gen) unfree(n string) {
+	p := n[:1]
+	fl := g.freed[p]
+	for i, x := range fl {
+		if x == n {
+			g.freed[p] = append(append([]string{}, fl[:i]...), fl[i+1:]...)
+			return
+		}
 	}
 }
 
@@ -374,7 +461,12 @@ func (g *Gen) genFuncDef() Stmt {
 	var params []ParamDecl
 	var ptypes []Type
 	savedI, savedB, savedS, savedQ := g.ints, g.bools, g.strs, g.slices
-	g.ints, g.bools, g.strs, g.slices = nil, nil, nil, nil
+	// a function body sees the globals defined before it, nothing else of the top level
+	g.ints = append([]string{}, savedI[:g.globals.ints]...)
+	g.bools = append([]string{}, savedB[:g.globals.bools]...)
+	g.strs = append([]string{}, savedS[:g.globals.strs]...)
+	g.slices = nil
+	fscope := g.save()
 	for k := 0; k < np; k++ {
 		t := []Type{TInt, TInt, TBool, TString}[g.pick(4)]
 		pn := g.fresh("p")
@@ -401,6 +493,7 @@ func (g *Gen) genFuncDef() Stmt {
 	}
 	body = append(body, Ret(rv...))
 	g.inFunc = false
+	g.restore(fscope) // parameters and locals go out of scope: their names may be reused by later frames and globals
 	g.ints, g.bools, g.strs, g.slices = savedI, savedB, savedS, savedQ
 	g.funcs = append(g.funcs, genFunc{name: name, params: ptypes, rets: rets})
 	return Fn(name, params, rets, body...)
@@ -410,6 +503,20 @@ func (g *Gen) genFuncDef() Stmt {
 func (g *Gen) Program(nStmts int) *Program {
 	var body []Stmt
 	if g.withFuncs {
+		// globals defined before the functions are read and written in place by them
+		for k := g.pick(3); k > 0; k-- {
+			switch g.pick(3) {
+			case 0:
+				n := g.fresh("s")
+				body = append(body, Def(n, g.strExpr(1)))
+				g.strs = append(g.strs, n)
+			default:
+				n := g.fresh("i")
+				body = append(body, Def(n, g.intExpr(1)))
+				g.ints = append(g.ints, n)
+			}
+		}
+		g.globals = g.save()
 		for k := g.pick(3) + 1; k > 0; k-- {
 			body = append(body, g.genFuncDef())
 		}
@@ -451,6 +558,9 @@ func generatedShapes(prefix string, seed int64, n int, withFuncs, withSlice bool
 		s := seed*100003 + int64(i)
 		g := NewGen(s, withFuncs, withSlice)
 		p := g.Program(4 + g.pick(4))
+		if os.Getenv("VERIF_DUMP_GEN") != "" {
+			fmt.Fprintf(os.Stderr, "---- generated %s #%d\n%s", prefix, i, Render(p).String())
+		}
 		out = append(out, Shape{Name: fmt.Sprintf("%s-generated", prefix), Prog: func(c *gosym.Ctx) *Program { return p }})
 	}
 	return out
